@@ -38,7 +38,7 @@ def load(ctx):
             if t[0] == "compare" and t[1] == ("is",) and t[2][1] == ("const", None):
                 t, pol = t[2][0], not pol  # `re.match(...) is None`
             pat = mode = None
-            if t[0] == "call" and t[1][0] == "attr" and t[1][2] in ("match", "fullmatch"):
+            if t[0] == "call" and t[1][0] == "attr" and t[1][2] in ("match", "fullmatch", "search"):
                 recv = t[1][1]
                 if M.is_call(recv) and M.callee_name(recv) == "compile" and len(recv[2]) == 1 and not recv[3] and recv[2][0][0] == "const" and t[2] == (val,) and not t[3]:
                     pat, mode = recv[2][0][1], t[1][2]  # re.compile(P).match(val)
@@ -66,8 +66,10 @@ def _full_language(text, mode):
     tree, info = rx.parse(text, 0)
     items = rx.top_items(tree)
     anchored_end = False
+    anchored_start = False
     while items and items[0][0] == "bol":
         items = items[1:]
+        anchored_start = True
     while items and items[-1][0] in ("eol", "eos"):
         items = items[:-1]
         anchored_end = True
@@ -76,6 +78,8 @@ def _full_language(text, mode):
         raise RxError("interior zero-width assertion in classifier pattern")
     if not anchored_end and mode != "fullmatch":
         body = rx.cat(body, rx.star(rx.ANYCHAR))
+    if mode == "search" and not anchored_start:
+        body = rx.cat(rx.star(rx.ANYCHAR), body)  # re.search finds the pattern anywhere; with a leading ^ (no MULTILINE) it is re.match
     return body, anchored_end
 
 
